@@ -56,6 +56,9 @@ def parse_sanitizer(stderr, repo='/repo'):
     kind = None
     start = 0
     for i, l in enumerate(lines):
+        if re.search(r'AddressSanitizer: (allocator is out of memory|requested allocation size|out-of-memory|allocation-size-too-big)', l) or \
+                re.search(r'AddressSanitizer failed to allocate', l):
+            return ('oom', '', '\n'.join(lines[i:i + 12]))
         m = re.search(r'ERROR: AddressSanitizer: ([\w-]+)', l)
         if m:
             kind = 'asan:' + m.group(1)
@@ -304,3 +307,20 @@ def run_sharded(exe, base_args, ncases, on_line, on_death, seed, timeout_per_cas
 def pmap(fn, items, jobs=None):
     with ThreadPoolExecutor(max_workers=jobs or NJOBS) as ex:
         return list(ex.map(fn, items))
+
+
+def generic_replay(path):
+    """Re-run the recorded harness command of a witness (binaries are rebuilt by the caller's builds())."""
+    w = json.load(open(path))
+    print(json.dumps({k: v for k, v in w.items() if k != 'witness'}, indent=1))
+    wit = w.get('witness', {})
+    cmd = wit.get('cmd') if isinstance(wit, dict) else None
+    if isinstance(cmd, list) and os.path.exists(cmd[0]):
+        r = run_proc(cmd, timeout=300)
+        sys.stdout.write(r['out'].decode('utf-8', 'replace')[-4000:])
+        sys.stdout.write(r['err'].decode('utf-8', 'replace')[-4000:])
+        d = classify_death(r)
+        print('replay exit:', r['rc'], d[0] if d else 'normal')
+        return 1 if d else 0
+    print(json.dumps(wit, indent=1)[:4000])
+    return 0
